@@ -156,7 +156,37 @@ TWIN_LAYOUTS = {
 }
 
 
+# statements whose first identifier starts with a keyword (family added after the seeded change
+# C11-elif-prefix-word-boundary: the wrapping stage strips "el" from a leading "elif" and puts it back by regex)
+HEAD_FORMS = {
+    "assign": "{id} = 1\n",
+    "call": "{id}(1)\n",
+    "attr_call": "{id}.add(other_value)\n",
+    "long_assign": "{id} = some_function_name(argument_one, argument_two) + another_function_name(argument_three, argument_four) + tail_value\n",
+    "subscript_aug": "{id}[0] += 1\n",
+}
+HEAD_POSITIONS = {
+    "module": "{S}",
+    "def_body": "def f():\n    {S}",
+    "after_if_block": "if cond:\n    pass\n{S}",
+    "in_else": "if cond:\n    pass\nelse:\n    {S}",
+    "class_body": "class K:\n    {S}",
+}
+
+
+def head_identifiers():
+    import keyword
+
+    for kw in keyword.kwlist + keyword.softkwlist:
+        for suffix in ("_x", "s"):
+            ident = kw + suffix
+            if not keyword.iskeyword(ident):
+                yield ident
+
+
 def units(tier):
+    for ident in head_identifiers():
+        yield {"t": "heads", "ident": ident}
     for kind in KINDS:
         for pos in POSITIONS:
             yield {"t": "literal", "kind": kind, "pos": pos}
@@ -309,6 +339,26 @@ def run_nested_blanks(name, only=None):
     return res
 
 
+def run_heads(ident, only=None):
+    res = {"n": 0, "nontrivial": [], "viol": [], "stats": {}, "samples": []}
+    for form, tmpl in HEAD_FORMS.items():
+        for pos, ptmpl in HEAD_POSITIONS.items():
+            src = ptmpl.replace("{S}", tmpl.replace("{id}", ident))
+            for stage in LITERAL_STAGES:
+                desc = {"head": ident, "form": form, "hpos": pos, "stage": stage}
+                if only and desc != only:
+                    continue
+                v, status = check_stage(stage, src, desc, "keyword_prefixed_identifier")
+                res["n"] += 1
+                res["stats"][status] = res["stats"].get(status, 0) + 1
+                if status == "changed":
+                    res["nontrivial"].append(key_of(desc))
+                    if not v and not res["samples"]:
+                        res["samples"].append(desc)
+                res["viol"].extend(v)
+    return res
+
+
 def _check_pipeline_layout(src, desc):
     """format_code on code where (apart from unused-name handling) only layout stages act: the sequence of
     statement KINDS and nesting must survive (names may be renamed by other rules, so compare tree shape)."""
@@ -447,6 +497,8 @@ def run_pipeline(kind, only=None):
 
 def run_unit(unit):
     t = unit["t"]
+    if t == "heads":
+        return run_heads(unit["ident"])
     if t == "literal":
         return run_literal(unit["kind"], unit["pos"])
     if t == "twins":
@@ -462,6 +514,8 @@ def run_unit(unit):
 
 def replay(desc):
     progs.worker_setup()
+    if "head" in desc:
+        return run_heads(desc["head"], only=desc)["viol"]
     if "nested_blanks" in desc:
         return run_nested_blanks(desc["nested_blanks"], only=desc)["viol"]
     if "twin_layout" in desc:
@@ -476,6 +530,8 @@ def replay(desc):
 
 
 def explain(desc):
+    if "head" in desc:
+        return HEAD_POSITIONS[desc["hpos"]].replace("{S}", HEAD_FORMS[desc["form"]].replace("{id}", desc["head"]))
     if "twin_layout" in desc:
         return TWIN_LAYOUTS[desc["twin_layout"]].replace("{P}", desc["plain"]).replace("{F}", desc["fstring"])
     if "layout" in desc:
